@@ -320,6 +320,28 @@ def micro_c08_scenario(r) -> Dict[str, Any]:
             "actions": {"BTC/USD@1": orders}, "on_order_event": [], "jobs": []}
 
 
+def micro_c07_rollback_near_limit(r) -> Dict[str, Any]:
+    """An account close to its margin limit (its only asset is ETH, most of the margin is used by an ETH loan) sends a
+    small short sale of BTC with auto-borrow that needs two loans - BTC to sell, and USD because the minimum fee exceeds
+    the proceeds: the first fits, the second is refused, the request is rejected and the first loan has to be given
+    back - whatever the margin level says at that moment."""
+    k = D(r.choice([1, 10, 100]))
+    px = D(1000)
+    flat = lambda t: [t, _s(px), _s(px), _s(px), _s(px), "1000"]  # noqa: E731
+    cond = {"interest_symbol": "USD", "pct": "10", "period_s": 365 * 86400, "min": _s(q(k, 2)), "req": "0.5"}
+    sell = {"op": "order", "kind": r.choice(["limit", "market"]), "side": "sell", "pair": "BTC/USD", "amount": _s(q(k / 1000, 5)),
+            "limit": _s(px), "auto_borrow": True, "auto_repay": False}
+    return {"class": "micro_c07", "symbols": {"BTC": 5, "ETH": 5, "USD": 2}, "pairs": [["BTC", "USD"], ["ETH", "USD"]],
+            "explicit_pair_info": [], "early_lookup": False, "fee": {"pct": "0.25", "min": _s(5 * k)}, "liq": None,
+            "lend": {"quote": "USD", "default": cond, "per_symbol": {}}, "max_concurrent": 50,
+            "bars": {"BTC/USD": [flat(t) for t in range(1, 6)], "ETH/USD": [flat(t) for t in range(1, 6)]},
+            "init": {"ETH": _s(q(D("0.09675") * k, 5)), "BTC": "0", "USD": "0"},
+            "actions": {"BTC/USD@1": [{"op": "loan", "symbol": "ETH", "amount": _s(q(D("0.19") * k, 5)), "boundary": False},
+                                      sell, {"op": "query"}],
+                        "BTC/USD@2": [dict(sell), {"op": "query"}]},
+            "on_order_event": [], "jobs": []}
+
+
 def micro_c07_blocked_repayment(r) -> Dict[str, Any]:
     """An auto-repay order closes (cancelled after a partial fill, or completed) while the loan it should repay can
     only be paid by dipping into funds another open order has on hold: the repayment is skipped, the closing request
@@ -354,7 +376,10 @@ def micro_c07_blocked_repayment(r) -> Dict[str, Any]:
         # two explicit loans of exactly the same size are open next to the automatic one
         x_ = r.choice(["50", "7.5"])
         actions["BTC/USD@1"] = [{"op": "loan", "symbol": "USD", "amount": x_, "boundary": False},
-                                {"op": "loan", "symbol": "USD", "amount": x_, "boundary": False}] + actions["BTC/USD@1"]
+                                {"op": "loan", "symbol": "USD", "amount": x_, "boundary": False},
+                                {"op": "loan", "symbol": "USD", "amount": x_, "boundary": False},
+                                # ... one of them is repaid at once: a closed loan in the credited symbol exists as well
+                                {"op": "repay", "among": "open", "pick": 0}] + actions["BTC/USD@1"]
     if r.random() < 0.4:
         # the interest is charged in a third symbol of which the account holds nothing: the principal is affordable,
         # the repayment is not
@@ -371,8 +396,11 @@ def micro_c07_blocked_repayment(r) -> Dict[str, Any]:
 def micro_c07_scenario(r) -> Dict[str, Any]:
     """Requests that fail *late*: a pair whose first bar comes after the request, so that a price is missing at one
     of the internal steps (valuing the margin, converting the interest, estimating a market order)."""
-    if r.random() < 0.25:
+    x0 = r.random()
+    if x0 < 0.25:
         return micro_c07_blocked_repayment(r)
+    if x0 < 0.35:
+        return micro_c07_rollback_near_limit(r)
     sc = gen.gen_scenario(r, "margin")
     sc["class"] = "micro_c07"
     sc["symbols"] = {"BTC": 4, "ETH": 3, "USD": 2}
